@@ -25,6 +25,11 @@ CONSTANTS
   GlClasses <- GAll
   FeeClasses <- FAll
   AlClasses <- ALAll
+  FrameKinds <- FKOld
+  CallTargets <- AnyAcct
+  TxTargets <- AnyAcct
+  Benefs <- AnyAcct
+  WpOps <- WPNone
   MaxDepth = 1
   MaxFrameOps = 2
   MaxTx = 1
